@@ -233,7 +233,9 @@ class Render:
         parts = []
         for it in items:
             if it['t'] == 'rep':
-                parts.append(f"{it['k']}*({self.tree(it['items'])})")
+                # white space is insignificant anywhere in a format, around a factor, its '*' and its brackets included
+                a, b, c, d = (self.rng.choice(['', '', '', ' ', '  ']) for _ in range(4)) if self.ws else ('', '', '', '')
+                parts.append(f"{it['k']}{a}*{b}({c}{self.tree(it['items'])}{d})")
             elif it['t'] == 'mul':
                 star = '*' if not self.ws or self.rng.random() < 0.8 else ' * '
                 parts.append(f"{it['k']}{star}{self.tok(it['item'])}")
@@ -341,6 +343,21 @@ def judge(ctx, case):
             else:
                 gv = B(got[1])[:80] if got[0] == 'ok' else got[1]
                 ctx.mismatch(f'C05|pack|{ic}|{shape(got, False)}', case, f'{fmt!r:.150}: got {gv!s:.80} expected {exp[:80]}')
+            # what pack returns is the caller's own: changing it in place must not change what the same call builds next time,
+            # nor an earlier result (a single-token format is the shortest route from a value's store to the result)
+            if got[0] == 'ok' and p is not None and (len(flat) == 1 or case.get('surplus', 0) % 3 == 0):
+                def again():
+                    q = pack(fmt, *vals, **kw)
+                    q.append('0b1')
+                    q.invert()
+                    q.prepend('0b0')
+                    return B(pack(fmt, *vals, **kw)), B(p)
+                got0 = call(again)
+                ctx.op('pack-after-mutating-an-earlier-result', 'ok' if got0[0] == 'ok' else type(got0[1]).__name__)
+                if got0 != ('ok', (exp, exp)):
+                    ctx.mismatch(f'C05|pack-after-mutating-an-earlier-result|{ic}|{shape(got0, False)}', case, f'{fmt!r:.120}: {got0[1]!s:.120} expected {exp[:60]}')
+                else:
+                    ctx.ok(('pack-again',) + key[:1], True)
             # a positional str value that happens to be spelt like the name of a keyword argument is still that value
             named = [v for v in vals if isinstance(v, str) and v.isidentifier() and v not in kw and v not in fmt]      # (not a text that is a token of the format)
             if named and got[0] == 'ok':
